@@ -7,6 +7,7 @@ import (
 	"fmt"
 	"strings"
 	"sync"
+	"sync/atomic"
 	"testing"
 	"testing/synctest"
 	"time"
@@ -46,6 +47,7 @@ type c16Log struct {
 	running          int
 	maxAfter         int // handlers started after Shutdown returned
 	shutdownReturned bool
+	lateConnects     int                  // connect hooks that ran after Shutdown had returned
 	cancelAt         map[string]time.Time // request id -> time its context was cancelled
 	started          map[string]time.Time
 	ended            map[string]time.Time
@@ -78,7 +80,7 @@ func c16Bubble(c c16Case) c08Result {
 	failHook := map[int]bool{}
 	order := 0
 	for i, cc := range c.Conns {
-		if cc.Phase == "closed" || cc.Phase == "connecting" {
+		if cc.Phase == "closed" || cc.Phase == "connecting" || cc.Phase == "accepted-held" {
 			// "closed" connections do connect (and close) before shutdown; "connecting" ones dial during shutdown
 		}
 		_ = i
@@ -129,6 +131,9 @@ func c16Bubble(c c16Case) c08Result {
 	srv := kmipserver.NewServer(ln, exec).
 		WithConnectHook(func(ctx context.Context) (context.Context, error) {
 			lg.mu.Lock()
+			if lg.shutdownReturned {
+				lg.lateConnects++
+			}
 			id := order
 			order++
 			bad := failHook[id]
@@ -173,7 +178,7 @@ func c16Bubble(c c16Case) c08Result {
 	}
 	accepted := 0
 	for _, cc := range c.Conns {
-		if cc.Phase == "connecting" {
+		if cc.Phase == "connecting" || cc.Phase == "accepted-held" {
 			clients = append(clients, &client{spec: cc, id: -1})
 			continue
 		}
@@ -224,13 +229,53 @@ func c16Bubble(c c16Case) c08Result {
 		}
 		synctest.Wait()
 	}
+	// a connection that Accept has returned but Serve has not registered yet when Shutdown starts: the accept loop is
+	// held at the yield point between the two (the first such connection only; the loop is a single goroutine)
+	var release chan struct{}
+	for _, cl := range clients {
+		if cl.spec.Phase == "accepted-held" && release == nil {
+			release = make(chan struct{})
+			var armed atomic.Bool
+			armed.Store(true)
+			rel := release
+			kmipserver.SetVerifYield(func(point string) {
+				if point == "kmipserver.serve.accepted" && armed.CompareAndSwap(true, false) {
+					<-rel
+				}
+			})
+			defer kmipserver.SetVerifYield(nil)
+			cl := cl
+			cl.spec.Phase = "accepted-held-first"
+			go func() {
+				conn, err := ln.Dial()
+				if err != nil {
+					return
+				}
+				cl.p = &peer{c: conn, gate: make(chan struct{}, 1)}
+				go cl.p.collect()
+			}()
+			synctest.Wait()
+		}
+	}
 	// shutdown begins
 	t0 := time.Now()
 	shutdownDone := make(chan error, 1)
-	go func() { shutdownDone <- srv.Shutdown() }()
+	go func() {
+		err := srv.Shutdown()
+		// recorded by the goroutine that called Shutdown, at once: hooks and handlers compare against it
+		lg.mu.Lock()
+		lg.shutdownReturned = true
+		lg.mu.Unlock()
+		shutdownDone <- err
+	}()
+	if release != nil {
+		// Shutdown runs as far as it can (to its wait for the registered connections, or to its end), then the accept loop goes on
+		synctest.Wait()
+		close(release)
+	}
 	// clients that connect while the server shuts down
 	for _, cl := range clients {
-		if cl.spec.Phase == "connecting" {
+		if cl.spec.Phase == "connecting" || cl.spec.Phase == "accepted-held" {
 			cl := cl
 			go func() {
 				conn, err := ln.Dial()
@@ -288,6 +333,12 @@ func c16Bubble(c c16Case) c08Result {
 	// Shutdown and Serve are not synchronised with each other: let the goroutines that Shutdown has already
 	// released run to their end (no fake time passes in Wait)
 	synctest.Wait()
+	lg.mu.Lock()
+	late := lg.lateConnects
+	lg.mu.Unlock()
+	if late != 0 {
+		return fail("connection-served-after-shutdown-returned", "%d connection(s) reached their connect hook (per-connection goroutines started) after Shutdown had returned", late)
+	}
 	select {
 	case e := <-serveRes:
 		if !errors.Is(e, kmipserver.ErrShutdown) {
@@ -381,7 +432,7 @@ func c16Bubble(c c16Case) c08Result {
 func TestC16Shutdown(t *testing.T) {
 	const name = "TestC16Shutdown"
 	rec := evid.New("C16", name, "0..6 connections, each in a drawn phase when Shutdown is called (idle, partial message sent, request in a handler of 0 / 1 s / 2.9 s / 3.1 s / 10 s honouring or ignoring its context, response blocked on a non-reading client, "+
-		"connecting during shutdown, already closed, connect hook failing), with 0..2 completed requests before and an optional client action (send more / close) at 0.5 / 2 / 3.5 s after shutdown began; synctest bubble (the 3 s grace period is exact and free); "+
+		"connecting during shutdown, accepted but not yet registered by the accept loop when Shutdown starts (the loop is held at a yield point and released once Shutdown waits or has returned), already closed, connect hook failing), with 0..2 completed requests before and an optional client action (send more / close) at 0.5 / 2 / 3.5 s after shutdown began; synctest bubble (the 3 s grace period is exact and free); "+
 		"oracle at the instant Shutdown returns and after 5 more seconds: listener closed, Serve returned ErrShutdown, no handler running or started later, census 0, every in-flight request answered or cancelled no earlier than 3 s, exactly one terminate hook per successful connect hook after the connection's last handler, none otherwise; "+
 		"non-trivial = a connection mid-handler and another connection in a different phase; distinct by case").Attach(t)
 	if rp := evid.LoadReplay(name); rp != nil {
@@ -394,7 +445,7 @@ func TestC16Shutdown(t *testing.T) {
 		}
 		return
 	}
-	phases := []string{"idle", "partial", "handler", "handler", "handler", "stalled-response", "connecting", "closed", "hook-fails"}
+	phases := []string{"idle", "partial", "handler", "handler", "handler", "stalled-response", "connecting", "accepted-held", "closed", "hook-fails"}
 	rapid.Check(t, func(rt *rapid.T) {
 		var c c16Case
 		n := rapid.IntRange(0, 6).Draw(rt, "connections")
@@ -408,7 +459,7 @@ func TestC16Shutdown(t *testing.T) {
 			} else {
 				other = true
 			}
-			if rapid.IntRange(0, 2).Draw(rt, "acts") == 0 && cc.Phase != "closed" && cc.Phase != "connecting" {
+			if rapid.IntRange(0, 2).Draw(rt, "acts") == 0 && cc.Phase != "closed" && cc.Phase != "connecting" && cc.Phase != "accepted-held" {
 				cc.AfterMs = rapid.SampledFrom([]int{500, 2000, 3500}).Draw(rt, "afterms")
 				cc.AfterAct = rapid.SampledFrom([]string{"send", "close"}).Draw(rt, "afteract")
 			}
